@@ -11,13 +11,13 @@ mod util;
 fn main() {
     let args = Args::parse();
     explorer::quiet_panics();
-    let code = match args.property.as_str() {
+    let code = explorer::guard_main(&args.property, || match args.property.as_str() {
         "C22" => c22::run(Report::new(&args, "fault_enumeration")),
         "C23" => c23::run(Report::new(&args, "model_checking")),
         other => {
             eprintln!("vh-syncmgr: unknown property {other}");
             2
         }
-    };
+    });
     std::process::exit(code);
 }
